@@ -145,6 +145,7 @@ type Unit struct {
 	Ops      []Op
 	Env      []string // extra environment for the tool (nil: sanitised)
 	Previous string   // content already at the -o path before the run ("" = the path does not exist)
+	Prior    *Prior   // a run of the tool executed first, over the same -o path and in the same directory (nil: none)
 
 	Run        cli.Run
 	Accepted   bool
@@ -154,6 +155,8 @@ type Unit struct {
 	Compiled   bool
 	CompileErr string
 	Results    []Res
+	LangErr    string // compile errors at the language version the pinned runtime itself declares ("" = fine or not tried)
+	LangTried  bool
 	ProbeErr   string // probe-level failure affecting this unit ("" = fine)
 	InitDied   bool   // the probe process died before `started` when this unit was linked alone
 }
@@ -177,8 +180,18 @@ func (u *Unit) CtorName() string {
 	return "NewGontainer"
 }
 
+// Prior is an earlier run over the same output path: all input files of both runs are written before it, so the file it leaves at
+// -o is newer than every input of the run that counts.
+type Prior struct {
+	Files    []File
+	Patterns []string
+	Flags    []string
+	Run      cli.Run
+}
+
 type Lab struct {
 	W     *work.WS
+	lang  string // extra -lang for compile() (CompileAtLang)
 	mu    sync.Mutex
 	batch int
 	Stats map[string]int
@@ -290,6 +303,22 @@ func (l *Lab) generate(u *Unit) {
 	if u.Previous != "" {
 		_ = os.WriteFile(out, []byte(u.Previous), 0o644)
 	}
+	if u.Prior != nil {
+		pcwd := filepath.Join(filepath.Dir(cwd), "earlier")
+		for _, f := range u.Prior.Files {
+			_ = work.WriteFile(filepath.Join(pcwd, f.Name), []byte(f.Content))
+		}
+		pa := []string{"build"}
+		for _, p := range u.Prior.Patterns {
+			pa = append(pa, "-i", p)
+		}
+		pa = append(pa, "-o", out)
+		pa = append(pa, u.Prior.Flags...)
+		if u.Stub {
+			pa = append(pa, "--stub")
+		}
+		u.Prior.Run = cli.Do(l.W, "", append(l.W.SaneEnv(), u.Env...), pcwd, out, pa...)
+	}
 	args := []string{"build"}
 	pats := u.Patterns
 	if pats == nil {
@@ -356,6 +385,64 @@ func (l *Lab) Compile(units []*Unit) error {
 	return l.compile(stub, true)
 }
 
+// RuntimeLang is the language version in the go.mod of the pinned gontainer-helpers module ("go1.14"): code that type-checks
+// "against the pinned runtime" has to type-check in a consumer module that declares no more than the runtime does.
+func (l *Lab) RuntimeLang() string {
+	v, err := l.W.HelpersVersion()
+	if err != nil {
+		return ""
+	}
+	r := l.W.Go(l.W.Mod, false, time.Minute, "list", "-m", "-f", "{{.GoVersion}}", "github.com/gontainer/gontainer-helpers/v3@"+v)
+	g := strings.TrimSpace(r.Stdout)
+	if r.Exit != 0 || g == "" {
+		return ""
+	}
+	if p := strings.Split(g, "."); len(p) > 2 {
+		g = p[0] + "." + p[1]
+	}
+	return "go" + g
+}
+
+// CompileAtLang compiles the generated packages of units that already compiled once more, with the compiler's language version set
+// to lang (the packages named on the command line only: generated file + the fixture symbols of its own package). Sets LangErr.
+func (l *Lab) CompileAtLang(units []*Unit, lang string) error {
+	var normal, stub []*Unit
+	type saved struct {
+		c, g  bool
+		e, gd string
+	}
+	keep := map[*Unit]saved{}
+	for _, u := range units {
+		if !u.Accepted || !u.Compiled {
+			continue
+		}
+		keep[u] = saved{u.Compiled, u.GofmtOK, u.CompileErr, u.GofmtDiff}
+		u.CompileErr = ""
+		if u.Stub {
+			stub = append(stub, u)
+		} else {
+			normal = append(normal, u)
+		}
+	}
+	l.lang = lang
+	err := l.compile(normal, false)
+	if err == nil {
+		err = l.compile(stub, true)
+	}
+	l.lang = ""
+	for u, s := range keep {
+		u.LangTried = err == nil
+		if !u.Compiled {
+			u.LangErr = u.CompileErr
+			if u.LangErr == "" {
+				u.LangErr = "(no message attributed)"
+			}
+		}
+		u.Compiled, u.GofmtOK, u.CompileErr, u.GofmtDiff = s.c, s.g, s.e, s.gd
+	}
+	return err
+}
+
 func (l *Lab) compile(units []*Unit, stub bool) error {
 	if len(units) == 0 {
 		return nil
@@ -403,6 +490,9 @@ func (l *Lab) compile(units []*Unit, stub bool) error {
 	}
 	sort.Strings(pkgs)
 	args := []string{"build", "-gcflags=-e"}
+	if l.lang != "" {
+		args = []string{"build", "-gcflags=-e -lang=" + l.lang}
+	}
 	if stub {
 		args = append(args, "-tags", "gontainerstub")
 	}
